@@ -58,10 +58,16 @@ TREES = {
     "longname": lambda r: (_w(f"{r}/src/{LONG}.txt", b"long name content"), _w(f"{r}/src/short", b"s" * 513)),
     "names": lambda r: (_w(f"{r}/src/a b.txt", b"space"), _w(f"{r}/src/ü☃.dat", b"uni"), _w(f"{r}/src/-dash", b"d"),
                         _w(f"{r}/src/q'\"uote", b"q")),
+    # a member that needs an extended header (name > 100 bytes) FOLLOWED by ordinary short-named members, and a non-ASCII
+    # name (PAX path record) in the middle: per-member extended headers must not leak into later members (seeded C23-1)
+    "long_first": lambda r: (_w(f"{r}/src/{'a' * 130}.txt", b"long"), _w(f"{r}/src/b_after_long.txt", b"after"),
+                             _w(f"{r}/src/z_last.txt", b"last" * 200)),
+    "unicode_middle": lambda r: (_w(f"{r}/src/a.txt", b"a"), _w(f"{r}/src/m_ü☃.txt", b"uni"), _w(f"{r}/src/z.txt", b"z")),
     "three_files": lambda r: [_w(f"{r}/src/f{i}", bytes([65 + i]) * (i * 511 + 1)) for i in range(3)],
 }
-QUICK_TREES = ["file", "empty_file", "exec_file", "dir2", "nested", "longname", "empty_dir", "block_file"]
-SMALL = {"file", "empty_file", "block_file", "exec_file", "dir2", "empty_dir", "nested", "longname", "names", "three_files"}
+QUICK_TREES = ["file", "empty_file", "exec_file", "dir2", "nested", "longname", "empty_dir", "block_file", "long_first",
+               "unicode_middle"]
+SMALL = {"long_first", "unicode_middle", "file", "empty_file", "block_file", "exec_file", "dir2", "empty_dir", "nested", "longname", "names", "three_files"}
 MAKERS = ["gnutar:gnu", "gnutar:pax", "gnutar:ustar", "py:gnu", "py:pax", "py:ustar"]
 
 
@@ -412,7 +418,7 @@ async def check_write(item, scratch):
 def all_items(tier, scratch):
     quick = tier == "quick"
     trees = QUICK_TREES if quick else list(TREES)
-    makers = ["gnutar:gnu", "gnutar:pax", "py:ustar", "py:gnu"] if quick else MAKERS
+    makers = ["gnutar:gnu", "gnutar:pax", "py:ustar", "py:gnu", "py:pax"] if quick else MAKERS
     chunks_small = [1, 2, 3, 7, 255, 256, 257, 511, 512, 513, 1023, 1024, 4096, 65536] if quick else list(range(1, 1030)) + [2047, 2048, 4095, 4096, 65536]
     items = []
     for t in trees:
